@@ -7,7 +7,7 @@
    Not proved here (tested against git check-attr): that the line tokenizer, unquoting, glob-pattern flags and
    path_matches/match_basename/match_pathname agree with git. *)
 From GixV.Base Require Import Bytes BytesFacts.
-From GixV.C38 Require Import Glob Model Spec Proofs.
+From GixV.C38 Require Import Glob Model Spec Proofs ProofsEarly.
 
 (* attribute names: check_attr accepts exactly what attr_name_valid accepts, for every byte string *)
 Theorem attr_name_valid_is_gits : forall n, attr_valid n = g_attr_name_valid n.
@@ -64,6 +64,21 @@ Theorem attrs_is_git_partial : forall global info files cf path isdir,
             git_attrs global info files cf path isdir = Some o.
 Proof. exact matching_attributes_is_git. Qed.
 
+(* the early exits of gix (Outcome::remaining reaching 0: `return true` in fill_attributes, `break 'outer`,
+   `out.is_done()`): for every set [u] of names known to the collection that contains the names used in macros and
+   in the lines of the list, stopping early returns exactly what running to the end returns *)
+Theorem early_exit_in_fill_changes_nothing : forall u M,
+  (forall n a, In a (lookup M n) -> In (fst a) u) ->
+  forall attrs o, (forall a, In a attrs -> In (fst a) u) ->
+  fill_attributes_early u M attrs o = fill_attributes M attrs o.
+Proof. exact fill_early_eq. Qed.
+
+Theorem early_exit_in_list_changes_nothing : forall u M,
+  (forall n a, In a (lookup M n) -> In (fst a) u) ->
+  forall matchf rmaps o, maps_known u rmaps ->
+  search_maps_early u matchf M rmaps o = search_maps matchf M rmaps o.
+Proof. exact search_maps_early_eq. Qed.
+
 (* ---- non-vacuity ------------------------------------------------------------------------------------ *)
 (* `* binary` expands the builtin macro; `-binary` and `binary=x` do not (git: value must be ATTR__TRUE) *)
 Example binary_set_expands :
@@ -87,3 +102,13 @@ Example tokens_examples :
   parse_attr (bs "-a=b") = Some (bs "a", SUnset) /\ parse_attr (bs "a=") = Some (bs "a", SValue []) /\
   parse_attr (bs "!") = None /\ parse_attr (bs "=v") = None /\ parse_attr (bs "a=b=c") = Some (bs "a", SValue (bs "b=c")).
 Proof. vm_compute. repeat split; reflexivity. Qed.
+Example early_exit_taken :
+  let M := [(bs "m", [(bs "a", SSet); (bs "b", SUnset)])] in
+  let u := [bs "m"; bs "a"; bs "b"] in
+  (forall n a, In a (lookup M n) -> In (fst a) u) /\
+  fill_attributes_early u M [(bs "b", SSet); (bs "m", SSet)] [] = Some [(bs "a", SSet); (bs "b", SUnset); (bs "m", SSet)].
+Proof.
+  split; [|vm_compute; reflexivity].
+  intros n a H. cbn [lookup] in H. destruct (bytes_eqb (bs "m") n); [|destruct H].
+  destruct H as [<- | [<- | []]]; cbn; auto.
+Qed.
